@@ -354,11 +354,12 @@ static void upipe_even_sub_free(struct upipe *upipe)
         if (!upipe_even->dead)
             upipe_dbg_va(upipe, "last date %"PRIu64, upipe_even->last_date);
         upipe_even->dead = true;
-        if (!upipe_even->in_loop)
-            upipe_even_process(upipe_even_to_upipe(upipe_even), NULL);
-        else
-            upipe_even->restart = true;
     }
+    /* this input no longer counts: the others may be ready now */
+    if (!upipe_even->in_loop)
+        upipe_even_process(upipe_even_to_upipe(upipe_even), NULL);
+    else
+        upipe_even->restart = true;
 
     upipe_even_sub_free_void(upipe);
 }
